@@ -19,6 +19,8 @@
                                into a sink FILE that c2mir closes), v (verbose), d (debug), w (ignore warnings)
      scan <hex MIR text>       MIR_scan_string
      api <k> <variant>         build module "api<k>" through the construction API
+     apim <k> <decl list>      build module "m<k>" through the construction API from a declaration list (exports / imports /
+                               forwards before and after definitions, repeated; see api_build_decl_module)
      write | read              MIR_write_with_func into the script's byte buffer / MIR_read_with_func from it
      fwrite | fread            MIR_write into a tmpfile() whose bytes become the script's byte buffer / MIR_read from a
                                tmpfile() holding the byte buffer
@@ -229,6 +231,129 @@ static void api_build_module (struct api *a, int k, int variant) {
 }
 
 
+/* module "m<k>" built through the construction API from a declaration list (tools/gen_c17_decl.py renders the same
+   list as MIR text): items separated by ',', fields by ':', lists inside a field by '.':
+     X:name | I:name | W:name          MIR_new_export / MIR_new_import / MIR_new_forward
+     P:name:nargs                      proto  i64 <- nargs x i64
+     D:name:v.v.v                      i64 data (name '-' = anonymous)        B:name:len   bss
+     S:name:text                       string data                            R:name:target:disp   ref data
+     F:name:p1:p2:ref.ref...           func  long name (long n):  acc = n; per ref  c=g (acc += g (acc) through proto p1),
+                                       h=imp (acc += imp (acc, n) through proto p2), d=data (acc += ((long *) data)[1]),
+                                       b=bss (store acc, load it back), a=item (address taken, value unused); ret acc
+   A name is referred to through the item the LAST declaring call for it returned (what a user of the API holds). */
+struct apim_name {
+  char name[48];
+  MIR_item_t item;
+};
+
+static MIR_item_t *apim_slot (struct apim_name *tab, int *n, const char *name) {
+  for (int i = 0; i < *n; i++)
+    if (strcmp (tab[i].name, name) == 0) return &tab[i].item;
+  if (*n == 96) return NULL;
+  snprintf (tab[*n].name, sizeof (tab[*n].name), "%s", name);
+  tab[*n].item = NULL;
+  return &tab[(*n)++].item;
+}
+
+static int api_build_decl_module (struct api *a, const char *k, const char *ops_text) {
+  MIR_context_t ctx = a->ctx;
+  struct apim_name *tab = API_REALLOC (NULL, 96 * sizeof (struct apim_name));
+  int ntab = 0, rc = 0;
+  char *ops = API_REALLOC (NULL, strlen (ops_text) + 1), *save = NULL, mname[48];
+  MIR_type_t res = MIR_T_I64;
+
+  strcpy (ops, ops_text);
+  snprintf (mname, sizeof (mname), "m%s", k);
+  MIR_new_module (ctx, mname);
+  for (char *tok = strtok_r (ops, ",", &save); tok != NULL && rc == 0; tok = strtok_r (NULL, ",", &save)) {
+    char *f[6] = {NULL, NULL, NULL, NULL, NULL, NULL}, *s2 = NULL;
+    int nf = 0;
+    MIR_item_t it = NULL, *slot;
+    for (char *p = strtok_r (tok, ":", &s2); p != NULL && nf < 6; p = strtok_r (NULL, ":", &s2)) f[nf++] = p;
+    if (nf < 2) { rc = -1; break; }
+    const char *name = strcmp (f[1], "-") == 0 ? NULL : f[1];
+    switch (f[0][0]) {
+    case 'X': it = MIR_new_export (ctx, name); break;
+    case 'I': it = MIR_new_import (ctx, name); break;
+    case 'W': it = MIR_new_forward (ctx, name); break;
+    case 'P': {
+      MIR_var_t pargs[4];
+      int na = nf > 2 ? atoi (f[2]) : 1;
+      static const char *const an[4] = {"a", "b", "c", "d"};
+      for (int i = 0; i < na && i < 4; i++) {
+        pargs[i].type = MIR_T_I64;
+        pargs[i].name = an[i];
+      }
+      it = MIR_new_proto_arr (ctx, name, 1, &res, na, pargs);
+      break;
+    }
+    case 'D': {
+      int64_t v[16];
+      size_t nv = 0;
+      char *s3 = NULL;
+      for (char *p = nf > 2 ? strtok_r (f[2], ".", &s3) : NULL; p != NULL && nv < 16; p = strtok_r (NULL, ".", &s3))
+        v[nv++] = atol (p);
+      it = MIR_new_data (ctx, name, MIR_T_I64, nv, v);
+      break;
+    }
+    case 'B': it = MIR_new_bss (ctx, name, nf > 2 ? (size_t) atol (f[2]) : 8); break;
+    case 'S': it = MIR_new_string_data (ctx, name, (MIR_str_t){strlen (nf > 2 ? f[2] : "") + 1, nf > 2 ? f[2] : ""}); break;
+    case 'R': {
+      MIR_item_t *t = nf > 2 ? apim_slot (tab, &ntab, f[2]) : NULL;
+      if (t == NULL || *t == NULL) { rc = -1; break; }
+      it = MIR_new_ref_data (ctx, name, *t, nf > 3 ? atol (f[3]) : 0);
+      break;
+    }
+    case 'F': {
+      MIR_item_t *p1 = nf > 2 ? apim_slot (tab, &ntab, f[2]) : NULL, *p2 = nf > 3 ? apim_slot (tab, &ntab, f[3]) : NULL;
+      MIR_item_t func = MIR_new_func (ctx, name, 1, &res, 1, MIR_T_I64, "n");
+      MIR_reg_t n = MIR_reg (ctx, "n", func->u.func), acc = MIR_new_func_reg (ctx, func->u.func, MIR_T_I64, "acc"),
+                t = MIR_new_func_reg (ctx, func->u.func, MIR_T_I64, "t"), ad = MIR_new_func_reg (ctx, func->u.func, MIR_T_I64, "ad");
+      char *s3 = NULL;
+#define OPR(r) MIR_new_reg_op (ctx, r)
+#define APP(insn) MIR_append_insn (ctx, func, insn)
+      APP (MIR_new_insn (ctx, MIR_MOV, OPR (acc), OPR (n)));
+      for (char *p = nf > 4 ? strtok_r (f[4], ".", &s3) : NULL; p != NULL; p = strtok_r (NULL, ".", &s3)) {
+        if (strcmp (p, "-") == 0) continue; /* no references */
+        MIR_item_t *r = p[0] != 0 && p[1] == '=' ? apim_slot (tab, &ntab, p + 2) : NULL;
+        if (r == NULL || *r == NULL) { rc = -1; break; }
+        if (p[0] == 'c' && p1 != NULL && *p1 != NULL) {
+          APP (MIR_new_call_insn (ctx, 4, MIR_new_ref_op (ctx, *p1), MIR_new_ref_op (ctx, *r), OPR (t), OPR (acc)));
+        } else if (p[0] == 'h' && p2 != NULL && *p2 != NULL) {
+          APP (MIR_new_call_insn (ctx, 5, MIR_new_ref_op (ctx, *p2), MIR_new_ref_op (ctx, *r), OPR (t), OPR (acc), OPR (n)));
+        } else if (p[0] == 'd') {
+          APP (MIR_new_insn (ctx, MIR_MOV, OPR (ad), MIR_new_ref_op (ctx, *r)));
+          APP (MIR_new_insn (ctx, MIR_MOV, OPR (t), MIR_new_mem_op (ctx, MIR_T_I64, 8, ad, 0, 1)));
+        } else if (p[0] == 'b') {
+          APP (MIR_new_insn (ctx, MIR_MOV, OPR (ad), MIR_new_ref_op (ctx, *r)));
+          APP (MIR_new_insn (ctx, MIR_MOV, MIR_new_mem_op (ctx, MIR_T_I64, 0, ad, 0, 1), OPR (acc)));
+          APP (MIR_new_insn (ctx, MIR_MOV, OPR (t), MIR_new_mem_op (ctx, MIR_T_I64, 0, ad, 0, 1)));
+        } else if (p[0] == 'a') {
+          APP (MIR_new_insn (ctx, MIR_MOV, OPR (ad), MIR_new_ref_op (ctx, *r)));
+          APP (MIR_new_insn (ctx, MIR_AND, OPR (t), OPR (ad), MIR_new_int_op (ctx, 0)));
+        } else {
+          rc = -1;
+          break;
+        }
+        APP (MIR_new_insn (ctx, MIR_ADD, OPR (acc), OPR (acc), OPR (t)));
+      }
+      APP (MIR_new_ret_insn (ctx, 1, OPR (acc)));
+#undef OPR
+#undef APP
+      MIR_finish_func (ctx);
+      it = func;
+      break;
+    }
+    default: rc = -1;
+    }
+    if (rc == 0 && name != NULL && (slot = apim_slot (tab, &ntab, name)) != NULL) *slot = it;
+  }
+  MIR_finish_module (ctx);
+  API_FREE (ops);
+  API_FREE (tab);
+  return rc;
+}
+
 /* the i-th module of the context, i taken modulo the number of modules */
 static MIR_module_t api_nth_module (struct api *a, int i) {
   int n = 0;
@@ -435,6 +560,12 @@ static int api_exec (struct api *a, const char *line) {
     API_FREE (src);
   } else if (strcmp (cmd, "api") == 0) {
     api_build_module (a, atoi (s1), atoi (s2));
+  } else if (strcmp (cmd, "apim") == 0) {
+    if (api_build_decl_module (a, s1, rest + strlen (s1) + 1) != 0) {
+      a->err_armed = 0;
+      api_outf (a, "X BADAPIM %s", s1);
+      return -1;
+    }
   } else if (strcmp (cmd, "write") == 0) {
     a->wlen = 0;
     MIR_write_with_func (a->ctx, api_writer);
